@@ -18,6 +18,11 @@ _LOGIC = {_np.logical_and: _np.bitwise_and, _np.logical_or: _np.bitwise_or, _np.
 _TRUE = None
 
 
+def _rdt(a):
+    """the real numpy dtype (DArr/BArr report the declared one)"""
+    return _np.ndarray.dtype.__get__(a) if isinstance(a, _np.ndarray) else _np.asarray(a).dtype
+
+
 def const_sb(b: bool) -> SB:
     import z3
     return SB(z3.BoolVal(bool(b)), (lambda env, b=bool(b): b))
@@ -39,15 +44,22 @@ def _norm_bool(res):
     for idx in _np.ndindex(res.shape):
         x = res[idx]
         out[idx] = x if isinstance(x, SB) else const_sb(bool(x))
-    return out.view(SArr)
+    r = out.view(BArr)
+    r._dt = _np.dtype(bool)
+    return r
 
 
 def _is_symbolic_obj(a):
-    return isinstance(a, _np.ndarray) and a.dtype == object
+    return isinstance(a, _np.ndarray) and _rdt(a) == object
 
 
 class CArr(_np.ndarray):
     """concrete (int/bool/float) ndarray that accepts symbolic boolean masks / constant proxies as indices"""
+
+    def __array_wrap__(self, arr, context=None, return_scalar=False):
+        if arr.ndim == 0:
+            return arr[()]          # reductions give numpy scalars, as for plain ndarrays
+        return arr.view(CArr) if _rdt(arr) != object else arr
 
     def __getitem__(self, key):
         return _np.ndarray.__getitem__(self, _concretize_key(key))
@@ -58,7 +70,7 @@ class CArr(_np.ndarray):
             if not value.is_const():
                 raise S.SymbolicLeak("symbolic value stored into a concrete array")
             value = builtins.int(value.cval()) if self.dtype.kind in "iu" else builtins.float(value.cval())
-        elif isinstance(value, _np.ndarray) and value.dtype == object:
+        elif isinstance(value, _np.ndarray) and _rdt(value) == object:
             conv = _np.empty(value.shape, dtype=self.dtype)
             for idx in _np.ndindex(value.shape):
                 v = value[idx]
@@ -75,7 +87,7 @@ class CArr(_np.ndarray):
 
 def carr(a):
     a = _np.asarray(a)
-    return a.view(CArr) if a.dtype != object else a
+    return a.view(CArr) if _rdt(a) != object else a
 
 
 class SArr(_np.ndarray):
@@ -109,15 +121,18 @@ class SArr(_np.ndarray):
         res = getattr(ufunc, method)(*ins, **kwargs)
         if out is not None:
             return out[0] if len(out) == 1 else out
-        if isinstance(res, _np.ndarray) and res.dtype == object:
+        if isinstance(res, _np.ndarray) and _rdt(res) == object:
+            if ufunc in (_np.multiply, _np.bitwise_and, _np.bitwise_or) and res.size and \
+                    builtins.all(isinstance(v, (SB, builtins.bool, _np.bool_)) for v in res.ravel()):
+                return _norm_bool(res)
             r = res.view(SArr)
-            r._dt = self._dt
+            r._dt = self._dt if not isinstance(self, BArr) else None
             return r
         return res
 
     def __setitem__(self, key, value):
         key = _concretize_key(key)
-        if isinstance(value, _np.ndarray) and value.dtype == object:
+        if isinstance(value, _np.ndarray) and _rdt(value) == object:
             pass
         else:
             value = _lift_any(value)
@@ -125,7 +140,7 @@ class SArr(_np.ndarray):
             # numpy discards the imaginary part when a complex value is stored into a float array (ComplexWarning)
             if isinstance(value, SC):
                 value = value.re
-            elif isinstance(value, _np.ndarray) and value.dtype == object and value.size and \
+            elif isinstance(value, _np.ndarray) and _rdt(value) == object and value.size and \
                     builtins.any(isinstance(v, SC) for v in value.ravel()):
                 value = _map(value, lambda v: v.re if isinstance(v, SC) else v)
         _np.ndarray.__setitem__(self, key, value)
@@ -176,6 +191,8 @@ class SArr(_np.ndarray):
         if axis is None:
             r = False
             for x in self.ravel():
+                if isinstance(x, (SR, SC)):
+                    x = (x != 0)
                 r = r | x if not isinstance(r, bool) or not r else True
                 if r is True:
                     return True
@@ -186,6 +203,8 @@ class SArr(_np.ndarray):
         if axis is None:
             r = True
             for x in self.ravel():
+                if isinstance(x, (SR, SC)):
+                    x = (x != 0)
                 if isinstance(r, bool):
                     r = x if r else False
                 else:
@@ -244,13 +263,13 @@ def _fold_minmax(arr, axis, keepdims, is_min):
 
 
 def f_min(a, axis=None, out=None, keepdims=False, **kw):
-    if isinstance(a, _np.ndarray) and a.dtype == object:
+    if isinstance(a, _np.ndarray) and _rdt(a) == object:
         return _fold_minmax(a, axis, keepdims, True)
     return _np.min(a, axis=axis, keepdims=keepdims, **kw)
 
 
 def f_max(a, axis=None, out=None, keepdims=False, **kw):
-    if isinstance(a, _np.ndarray) and a.dtype == object:
+    if isinstance(a, _np.ndarray) and _rdt(a) == object:
         return _fold_minmax(a, axis, keepdims, False)
     return _np.max(a, axis=axis, keepdims=keepdims, **kw)
 
@@ -263,6 +282,41 @@ class DArr(SArr):
         return self._dt if self._dt is not None else _np.ndarray.dtype.__get__(self)
 
 
+class BArr(SArr):
+    """symbolic boolean mask: reports dtype bool (so that `mask.dtype == "bool"` branches as in production);
+    mask.sum() / mask.astype(bool) concretise the mask (one solver-decided fork per undetermined element)"""
+
+    @property
+    def dtype(self):
+        return _np.dtype(bool)
+
+    def concretise(self):
+        out = _np.empty(self.shape, dtype=bool)
+        for idx in _np.ndindex(self.shape):
+            out[idx] = builtins.bool(_np.ndarray.__getitem__(self, idx))
+        return out.view(CArr)
+
+    def sum(self, axis=None, **kw):
+        return self.concretise().sum(axis=axis, **kw)
+
+    def astype(self, dtype, *a, **k):
+        dtype = _dt(dtype)
+        if _np.dtype(dtype).kind == "b":
+            return self
+        if _np.dtype(dtype).kind in "iu":
+            return self.concretise().astype(dtype)
+        return _map(self, lambda x: S.indicator(x) if isinstance(x, SB) else lift_strict(x))
+
+    def copy(self, *a, **k):
+        r = _np.ndarray.copy(self, *a, **k)
+        return r
+
+    def mean(self, axis=None, **kw):
+        ind = _map(self, lambda x: S.indicator(x) if isinstance(x, SB) else lift_strict(x))
+        ind._dt = _np.dtype(float)
+        return _np.ndarray.mean(ind.view(SArr), axis=axis, **kw)
+
+
 def declared(arr, dt):
     r = arr.view(DArr)
     r._dt = _np.dtype(dt)
@@ -271,7 +325,7 @@ def declared(arr, dt):
 
 def _boolify(x):
     """object arrays of python bools -> const SB so that & | ~ have boolean meaning"""
-    if isinstance(x, _np.ndarray) and x.dtype == object:
+    if isinstance(x, _np.ndarray) and _rdt(x) == object:
         out = _np.empty(x.shape, dtype=object)
         for idx in _np.ndindex(x.shape):
             v = x[idx]
@@ -294,7 +348,7 @@ def _concretize_key(key):
         return tuple(_concretize_key(k) for k in key)
     if isinstance(key, SR):
         return key.__index__()
-    if isinstance(key, _np.ndarray) and key.dtype == object and key.size:
+    if isinstance(key, _np.ndarray) and _rdt(key) == object and key.size:
         first = key.ravel()[0]
         if isinstance(first, (SB, bool, _np.bool_)):
             out = _np.empty(key.shape, dtype=bool)
@@ -317,7 +371,7 @@ def _lift_any(v):
     if isinstance(v, (list, tuple)):
         return sarr(v)
     if isinstance(v, _np.ndarray):
-        if v.dtype == object:
+        if _rdt(v) == object:
             return v
         return sarr(v)
     r = lift(v)
@@ -333,7 +387,7 @@ def sarr(values, dt=None) -> SArr:
         if dt is not None:
             r._dt = dt
         return r
-    if isinstance(values, _np.ndarray) and values.dtype != object:
+    if isinstance(values, _np.ndarray) and _rdt(values) != object:
         out = _np.empty(values.shape, dtype=object)
         for idx in _np.ndindex(values.shape):
             out[idx] = lift_strict(values[idx].item())
@@ -372,7 +426,7 @@ def _has_symbolic(x) -> bool:
     if isinstance(x, (SR, SC, SB, SAngle)):
         return True
     if isinstance(x, _np.ndarray):
-        return x.dtype == object
+        return _rdt(x) == object
     if isinstance(x, (list, tuple)):
         return builtins.any(_has_symbolic(y) for y in x)
     if isinstance(x, str):
@@ -457,11 +511,11 @@ def f_full(shape, fill_value, dtype=None, **kw):
 def f_zeros_like(a, dtype=None, **kw):
     dtype = _dt(dtype)
     if dtype is None:
-        if isinstance(a, SArr) or (isinstance(a, _np.ndarray) and a.dtype == object):
+        if isinstance(a, SArr) or (isinstance(a, _np.ndarray) and _rdt(a) == object):
             dtype = getattr(a, "_dt", None) or float
         else:
             a = _np.asarray(a) if not _has_symbolic(a) else sarr(a)
-            dtype = a.dtype if a.dtype != object else float
+            dtype = a.dtype if _rdt(a) != object else float
     return f_zeros(_np.shape(a), dtype)
 
 
@@ -478,7 +532,7 @@ def _f_array(obj, dtype=None, copy=True, **kw):
         elif _is_intlike_dtype(dtype):
             return obj.astype(dtype)
         return r
-    if isinstance(obj, _np.ndarray) and obj.dtype != object:
+    if isinstance(obj, _np.ndarray) and _rdt(obj) != object:
         if dtype is None or _is_intlike_dtype(dtype) or obj.dtype.kind in "iub" and dtype is None:
             return _np.array(obj, dtype=dtype, copy=copy, **kw)
         if obj.dtype.kind in "iub" and not _is_intlike_dtype(dtype):
@@ -488,16 +542,16 @@ def _f_array(obj, dtype=None, copy=True, **kw):
         return _np.array(obj, dtype=dtype, **kw)
     if dtype is None and not _has_symbolic(obj):
         probe = _np.array(obj, **kw)
-        if probe.dtype.kind in "iubUSO" and probe.dtype != object:
+        if probe.dtype.kind in "iubUSO" and _rdt(probe) != object:
             return probe
-        if probe.dtype == object:
+        if _rdt(probe) == object:
             return probe
         return sarr(probe, probe.dtype)
     if dtype is object:
         return _np.array(obj, dtype=object)
     if isinstance(obj, (list, tuple)) and obj and builtins.all(isinstance(x, _np.ndarray) for x in obj):
         # list of equally shaped arrays -> stack
-        parts = [x if x.dtype == object else sarr(x) for x in obj]
+        parts = [x if _rdt(x) == object else sarr(x) for x in obj]
         out = _np.empty((len(parts),) + parts[0].shape, dtype=object)
         for i, p in enumerate(parts):
             out[i] = p
@@ -514,7 +568,7 @@ def _f_array(obj, dtype=None, copy=True, **kw):
 
 def f_array(obj, dtype=None, copy=True, **kw):
     r = _f_array(obj, dtype=dtype, copy=copy, **kw)
-    if type(r) is _np.ndarray and r.dtype != object and r.dtype.kind in "iub":
+    if type(r) is _np.ndarray and _rdt(r) != object and r.dtype.kind in "iub":
         r = r.view(CArr)
     return r
 
@@ -528,7 +582,7 @@ def _infer_dt(r):
 
 def f_asarray(obj, dtype=None, **kw):
     dtype = _dt(dtype)
-    if isinstance(obj, _np.ndarray) and (dtype is None or obj.dtype == object and not _is_intlike_dtype(dtype)):
+    if isinstance(obj, _np.ndarray) and (dtype is None or _rdt(obj) == object and not _is_intlike_dtype(dtype)):
         return obj
     return f_array(obj, dtype=dtype, copy=False)
 
@@ -559,7 +613,7 @@ def f_linspace(start, stop, num=50, endpoint=True, retstep=False, **kw):
 
 def f_diag(v, k=0):
     v = v if isinstance(v, _np.ndarray) else f_array(v)
-    if v.dtype != object:
+    if _rdt(v) != object:
         return sarr(_np.diag(v, k))
     if v.ndim == 1:
         n = v.shape[0]
@@ -583,7 +637,7 @@ def f_where(cond, x=None, y=None):
     c = cond if isinstance(cond, _np.ndarray) else _np.asarray(cond, dtype=object if isinstance(cond, SB) else None)
     xa = x if isinstance(x, _np.ndarray) else _np.asarray(lift_strict(x) if not isinstance(x, (list, tuple)) else sarr(x), dtype=object)
     ya = y if isinstance(y, _np.ndarray) else _np.asarray(lift_strict(y) if not isinstance(y, (list, tuple)) else sarr(y), dtype=object)
-    if c.dtype != object and xa.dtype != object and ya.dtype != object:
+    if _rdt(c) != object and _rdt(xa) != object and _rdt(ya) != object:
         return _np.where(c, xa, ya)
     b = _np.broadcast(c, xa, ya)
     out = _np.empty(b.shape, dtype=object)
@@ -598,7 +652,7 @@ def f_histogram(a, bins=10, range=None, density=None, weights=None):
     """documented numpy semantics for an integer number of equal-width bins over `range`:
     bin k = [e_k, e_{k+1}) , last bin closed on the right; values outside the range are ignored."""
     a = a if isinstance(a, _np.ndarray) else f_array(a)
-    if a.dtype != object and (weights is None or not _has_symbolic(weights)) and not _has_symbolic(range):
+    if _rdt(a) != object and (weights is None or not _has_symbolic(weights)) and not _has_symbolic(range):
         return _np.histogram(a, bins=bins, range=range, density=density, weights=weights)
     if density:
         raise S.SymbolicLeak("histogram(density=True) not modelled")
@@ -660,7 +714,7 @@ def f_abs(x, *a, **k):
 def f_real(x):
     if isinstance(x, (SR, SC)):
         return x.real
-    if isinstance(x, _np.ndarray) and x.dtype == object:
+    if isinstance(x, _np.ndarray) and _rdt(x) == object:
         return _map(x, lambda v: v.real if isinstance(v, (SR, SC)) else lift_strict(v).real)
     return _np.real(x)
 
@@ -668,7 +722,7 @@ def f_real(x):
 def f_imag(x):
     if isinstance(x, (SR, SC)):
         return x.imag
-    if isinstance(x, _np.ndarray) and x.dtype == object:
+    if isinstance(x, _np.ndarray) and _rdt(x) == object:
         return _map(x, lambda v: lift_strict(v).imag)
     return _np.imag(x)
 
@@ -676,7 +730,7 @@ def f_imag(x):
 def f_conj(x, *a, **k):
     if isinstance(x, (SR, SC)):
         return x.conjugate()
-    if isinstance(x, _np.ndarray) and x.dtype == object:
+    if isinstance(x, _np.ndarray) and _rdt(x) == object:
         return _map(x, lambda v: lift_strict(v).conjugate())
     return _np.conj(x, *a, **k)
 
@@ -686,7 +740,7 @@ def f_angle(x):
         return S.arctan2(x.im, x.re)
     if isinstance(x, SR):
         return S.arctan2(S.ZERO(), x)
-    if isinstance(x, _np.ndarray) and x.dtype == object:
+    if isinstance(x, _np.ndarray) and _rdt(x) == object:
         out = _np.empty(x.shape, dtype=object)
         for idx in _np.ndindex(x.shape):
             out[idx] = f_angle(lift_strict(x[idx]))
@@ -709,7 +763,7 @@ def f_power(x, e, *a, **k):
 def f_round(x, decimals=0, *a, **k):
     if isinstance(x, SR):
         return x.rint() if decimals == 0 else x
-    if isinstance(x, _np.ndarray) and x.dtype == object:
+    if isinstance(x, _np.ndarray) and _rdt(x) == object:
         return x.view(SArr).round(decimals)
     return _np.round(x, decimals, *a, **k)
 
@@ -745,7 +799,7 @@ def _det(m):
 
 def linalg_inv(m):
     m = m if isinstance(m, _np.ndarray) else f_array(m)
-    if m.dtype != object:
+    if _rdt(m) != object:
         return _np.linalg.inv(m)
     n = m.shape[0]
     det = _det(m)
@@ -764,14 +818,14 @@ def linalg_inv(m):
 
 def linalg_det(m):
     m = m if isinstance(m, _np.ndarray) else f_array(m)
-    if m.dtype != object:
+    if _rdt(m) != object:
         return _np.linalg.det(m)
     return _det(m)
 
 
 def linalg_norm(x, ord=None, axis=None, keepdims=False):
     x = x if isinstance(x, _np.ndarray) else f_array(x)
-    if x.dtype != object:
+    if _rdt(x) != object:
         return _np.linalg.norm(x, ord=ord, axis=axis, keepdims=keepdims)
     if ord not in (None, 2, "fro"):
         raise S.SymbolicLeak(f"norm ord={ord} not modelled")
